@@ -29,7 +29,7 @@ checks = {
    SIM + "seeded schedule search with a conservation (exact count) oracle over the recorded history", "§4.C03"),
  "C04": ("exploration",
    "seeded search over time limits (unset, 0, 1 ns, around the per-round cost, MAX, min > max) x skip_ext_time x cost scripts x virtual-clock configurations x clock faults (stall, forward / backward jump, per-thread skew); oracle re-evaluates the documented stop rule on the raw logged clock readings after every round: every executed non-final round must satisfy 'continue', the final one must not — i.e. the number of rounds is the smallest satisfying the rule.",
-   "trusted: the virtual counter (hook H5) is the only clock; Timer::Os not exercised; the oracle's own floor((b-a)*10^12/f)",
+   "trusted: the virtual counter (hooks H5 / H9: both Timer::Tsc and Timer::Os read it) is the only clock; the oracle's own floor((b-a)*10^12/f)",
    SIM + "discrete-event virtual clock with clock-fault injection; history check of the stop rule against a reference model on the logged readings", "§4.C04"),
  "C05": ("exploration",
    "seeded search over sample multisets that only come into existence through the loop (T threads, scripted clock incl. ties, zero and > 2^64 ps durations, allocation scripts, per-input counter values incl. near u64::MAX, overhead constants, zero-sample configurations); oracles: each stored duration recomputed from the logged readings; Stats compared with an independent integer order-statistics model (ties: any attaining sample); allocation/counter figures those of an attaining sample; compute_stats and the painted row (stdout captured at fd level) never panic and contain no NaN.",
